@@ -160,7 +160,7 @@ def _b2(prefix, tally, seed=0):
                     continue
                 if kind == "exec":
                     exp = d.f(X)
-                    if any(not np.array_equal(r[o], exp[o]) for o in d.outs):
+                    if any(not np.array_equal(r.get(o), exp[o]) for o in d.outs):
                         bad.append(("positional-result", f"slot {k}: {dict(r)} expected {exp}"))
                 else:
                     if set(r) != set(d.outs) or any(not np.array_equal(_dense(r[o][i]), d.M[o, i]) for o in d.outs for i in d.ins):
